@@ -158,6 +158,19 @@ pub fn profile(prop: &str) -> Option<Profile> {
             p.focus = [focus_put(), focus_take(false), focus_drain_splice(false)].concat();
             p
         }
+        "C04" => {
+            let mut p = base("C04");
+            p.ops.extend_from_slice(&[(Op::TypeProbe, 40)]);
+            p.steps = (8, 40);
+            let mut fo = Vec::new();
+            for kind in 0..TP_KINDS {
+                for form in 0..2u8 {
+                    fo.push(f(Op::TypeProbe, kind, 0, 0, form));
+                }
+            }
+            p.focus = fo;
+            p
+        }
         "C05" => {
             let mut p = base("C05");
             p.ops.extend_from_slice(&[(Op::CloneVec, 3), (Op::Cap, 8), (Op::Views, 2), (Op::RawTrip, 1), (Op::MoveVec, 3)]);
@@ -347,16 +360,20 @@ pub fn owned(prop: &str, v: &Violation) -> bool {
     if v.class == Unsupported {
         return false; // harness problem, reported separately as exit 2
     }
-    if v.class == Crash {
+    // a dead or hung process is attributed like a content violation of the step it died in,
+    // and always to the memory-safety and ownership properties
+    let crash = v.class == Crash;
+    if crash && matches!(prop, "C03" | "C05") && v.faulted == 0 {
         return true;
     }
     let strict = v.faulted == 0;
-    let content = matches!(v.class, EvMismatch | SnapMismatch | BadValue);
+    let content = matches!(v.class, EvMismatch | SnapMismatch | BadValue | Crash);
     let ledger = matches!(v.class, DoubleDrop | GarbageDrop | CountMismatch | AliveAtEnd);
     match prop {
         "C01" => strict && content && matches!(v.op, Op::Put | Op::Take | Op::Clear | Op::Get | Op::Iter | Op::PushRun | Op::New | Op::DropVec | Op::MoveVec | Op::Nop),
         "C02" => strict && content && matches!(v.op, Op::Drain | Op::Splice),
         "C03" => strict && (ledger || v.class == BadValue),
+        "C04" => v.op == Op::TypeProbe,
         "C05" => {
             matches!(v.class, MemEnv | LenGtCap | ObjectGuard | StorageLeak | BadValue | GarbageDrop)
                 || (v.class == Alloc && !v.detail.contains("layout"))
@@ -370,9 +387,9 @@ pub fn owned(prop: &str, v: &Violation) -> bool {
         "C11" => v.class == HeapUseOnStack || (v.on_stack && (content || (strict && ledger) || v.class == RelaxedInvalid || v.class == LenGtCap)),
         "C12" => matches!(v.class, Misaligned | Views) || (v.op == Op::Views && content),
         "C13" => strict && content && matches!(v.op, Op::Get | Op::Mutate | Op::Swap),
-        "C14" => strict && ((v.op == Op::Iter && content) || (matches!(v.op, Op::Drain | Op::Splice) && v.class == EvMismatch)),
+        "C14" => strict && ((v.op == Op::Iter && content) || (matches!(v.op, Op::Drain | Op::Splice) && v.class == EvMismatch && !v.panic_involved)),
         "C17" => strict && v.op == Op::RawTrip,
-        "C18" => matches!(v.class, Alloc | HeapLeak | HeapBlock),
+        "C18" => matches!(v.class, Alloc | HeapLeak | HeapBlock) || (crash && v.detail.contains("allocator monitor")),
         "C19" => true,
         _ => false,
     }
